@@ -8,6 +8,7 @@
 package pfcpiface
 
 import (
+	"math/rand"
 	"net"
 	"time"
 
@@ -145,3 +146,5 @@ func vCopyRules(r PacketForwardingRules) PacketForwardingRules {
 	c.qers = append(c.qers, r.qers...)
 	return c
 }
+
+func vRng() *rand.Rand { return rand.New(&vRandSource{counter: true}) }
